@@ -693,7 +693,7 @@ def conditions(tier):
                   "bounds": "REQUIRED/OPTIONAL/MULTI_VALUED bits x {no type, BOOLEAN, FLOAT}, constructed with each of 6 default kinds, then set_default(each of 6 kinds) / set_default()"})
     for n in range(0, 3):
         conds.append({"name": "short_name[len=%d]" % n, "fn": short_name, "timeout": t, "part": {"n": n}, "bounds": "all short names of length %d, with and without '-'" % n})
-    for lo, hi in [(-9, 9), (10, 99), (-99, -10), (100, 999), (-999, -100), (1000, 99999), (-99999, -1000), (10 ** 5, 10 ** 6), (-10 ** 6, -10 ** 5)]:
+    for lo, hi in [(-9, 9), (10, 99), (-99, -10), (100, 999), (-999, -100), (1000, 99999), (-99999, -1000), (10 ** 5, 10 ** 6), (-10 ** 6, -10 ** 5), (2 ** 53 - 5, 2 ** 53 + 5), (-(10 ** 19) - 5, -(10 ** 19) + 5), (10 ** 30, 10 ** 30 + 9)]:
         conds.append({"name": "int_roundtrip[%d..%d]" % (lo, hi), "fn": int_roundtrip, "timeout": t, "part": {"lo": lo, "hi": hi}, "bounds": "every int in [%d, %d]" % (lo, hi)})
     conds.append({"name": "bool_forms", "fn": bool_forms, "timeout": t, "bounds": "the ten boolean text forms"})
     for n in range(0, nmax + 1):
